@@ -43,6 +43,23 @@ def spec(case, mo, io):
         if op["op"] == "class" and ms["err"] != "skipped" and is_["err"] != "skipped":
             rej = ms["specRejects"]
             got = is_["err"]
+            # a plain (non-DBC) ancestor that overrides a member its own ancestors provide was never processed by the
+            # library: what it "provides" is outside the claim
+            prev = dict((c["k"], c) for c in (mo["steps"][i - 1]["obs"] if i > 0 else []))
+            declared_ = dict((o["k"], set(kk for kk, _m in o["ns"])) for o in ops if o["op"] == "class")
+            ancestors = []
+            for b in op["bases"]:
+                for a in prev.get(b, {}).get("mro", [b]):
+                    if a not in ancestors:
+                        ancestors.append(a)
+            skip = False
+            for key, _m in op["ns"]:
+                for anc in ancestors:
+                    if anc in prev and not prev[anc]["dbc"] and key in declared_.get(anc, ()) and \
+                            any(key in declared_.get(a2, ()) for a2 in prev[anc]["mro"][1:]):
+                        skip = True
+            if skip:
+                continue
             if rej and got is None:
                 fails.append("step %d: class %d adds preconditions to a member an ancestor provides without any, but was created" % (i, op["k"]))
             if not rej and got == ["TypeError", "weaken"]:
